@@ -6,7 +6,12 @@ m·x/(4π|x|³) (three `HasDerivAt` computations); the straight current segment:
 direction) equals the Biot–Savart line integral over the segment for every observer off the
 carrier line (`segment_is_biot_savart`, via the antiderivative, the fundamental theorem of
 calculus and an affine substitution — Lemmas/SegmentBS.lean); the Circle on its axis
-(`circle_on_axis_is_biot_savart`: the wrapper's on-axis branch is the loop integral); the Cuboid: the port of
+(`circle_on_axis_is_biot_savart`: the wrapper's on-axis branch is the loop integral) and off its
+axis modulo ONE named classical fact about Bulirsch's `cel` iteration (`CelComputesIntegral`, an
+ordinary hypothesis: the iteration converges to the cel integral): `circle_kernel_is_biot_savart_plus_cel_error`
+(exact, hypothesis-free: kernel = κ·Biot–Savart + prefactor·(cel iteration value − cel integral)),
+`circle_is_biot_savart_of_cel`, `circle_integrals_as_cel`, `circle_loop_integrals`
+(Lemmas/CircleBS.lean); the Cuboid: the port of
 `magnet_cuboid_Bfield` (octant reflection, arctan2 sums, log differences, `qsigns`) equals the
 Coulombian surface-charge integral over its six faces for every observer off the six face planes,
 all octants, plus J inside (`cuboid_is_coulomb_integral`, via two nested one-variable FTC steps per
@@ -15,7 +20,8 @@ with the textbook interface conditions (C13, C14); the wrappers add exactly the 
 polarization term (C02); the frame change global↔local is a rigid motion (C03).
 /- FULL: for every class the closed form equals its defining surface / line integral.  Not shown:
    (b) Triangle (hence
-   Tetrahedron, TriangularMesh): iterated one-variable integrals of the same kind; (c) Circle off its axis,
+   Tetrahedron, TriangularMesh): iterated one-variable integrals of the same kind; (c) that the cel
+   iteration converges to the cel integral (Circle off its axis: everything else is proved);
    Cylinder, CylinderSegment: need Bulirsch cel/el3 theory absent from Mathlib.  For all classes
    the quadrature oracle integrates the defining integral numerically against the real code. -/
 -/
@@ -28,6 +34,7 @@ import Mathlib.Analysis.Calculus.Deriv.MeanValue
 import MagpyVerif.Lemmas.DipoleCalc
 import MagpyVerif.Lemmas.RectCharge
 import MagpyVerif.Lemmas.CuboidCoulomb
+import MagpyVerif.Lemmas.CircleBS
 namespace MagpyVerif.C01
 open MagpyVerif MagpyVerif.Kern Real intervalIntegral MagpyVerif.SegBS
 
@@ -393,5 +400,231 @@ example : bhjmCuboid .B (⟨2, 2, 2⟩ : V3 ℝ) ⟨0, 0, 1⟩ ⟨1 / 2, 1 / 3, 
     (by unfold rtol; norm_num [abs_of_pos, abs_of_neg])).2
   rw [h, if_pos]
   norm_num [abs_of_pos, abs_of_neg]
+
+/-! ### Circle off its axis: the kernel against the Biot–Savart loop integral, modulo one named
+classical fact about Bulirsch's `cel` (Lemmas/CircleBS.lean)
+
+`celIntegral kc p a b = ∫₀^{π/2} (a cos²φ + b sin²φ) / ((cos²φ + p sin²φ) √(cos²φ + kc² sin²φ)) dφ`.
+`current_circle_Hfield` enters `cel_iter` *after* the prologue of the algorithm with its own loop
+variables; they are the prologue states (`celEntry`, tied to the model's `cel0` by
+`cel_prologue_state`) of
+  first call  (H_r):  cel(q, 1, k2, −k2·q2),
+  second call (H_z):  cel(q, 1, k2·(1 − 1/ρ), −k2·q2·(1 + 1/ρ)),        ρ = r/r0,
+`q2 = ((r − r0)² + z²)/((r + r0)² + z²)`, `k2 = 1 − q2 = 4 r r0/((r + r0)² + z²)`, `q = √q2`. -/
+
+open MagpyVerif.CircleBS
+
+/-- the vector Biot–Savart integrand `dl × d / |d|³` of the loop for an observer at `(r, 0, z)` -/
+theorem loopIntegrand_eq (r0 r z φ : ℝ) :
+    loopIntegrand r0 r z φ =
+      vd ⟨r0 * z * Real.cos φ, r0 * z * Real.sin φ, r0 * (r0 - r * Real.cos φ)⟩
+        (Real.sqrt (r0 * r0 + r * r + z * z - 2 * r0 * r * Real.cos φ) ^ 3) :=
+  CircleBS.loopIntegrand_eq r0 r z φ
+
+/-- **C01 (Circle), item 2**: the radial (= x, the observer has azimuth 0) and axial components of
+`∮ dl × d / |d|³` are the classical one-dimensional integrals; the azimuthal component vanishes
+(the source returns `np.zeros` for it) -/
+theorem circle_loop_integrals (r0 r z : ℝ) :
+    (∫ φ in (0:ℝ)..(2 * π), (loopIntegrand r0 r z φ).x) =
+        ∫ φ in (0:ℝ)..(2 * π),
+          r0 * z * Real.cos φ / Real.sqrt (r0 * r0 + r * r + z * z - 2 * r0 * r * Real.cos φ) ^ 3 ∧
+    (∫ φ in (0:ℝ)..(2 * π), (loopIntegrand r0 r z φ).z) =
+        ∫ φ in (0:ℝ)..(2 * π),
+          r0 * (r0 - r * Real.cos φ) / Real.sqrt (r0 * r0 + r * r + z * z - 2 * r0 * r * Real.cos φ) ^ 3 ∧
+    (∫ φ in (0:ℝ)..(2 * π), (loopIntegrand r0 r z φ).y) = 0 :=
+  CircleBS.circle_loop_integrals r0 r z
+
+/-- integration by parts on `[0, π/2]`: the `cel` with denominator `Δ` (`p = 1`, what the kernel
+evaluates) is the `cel` with denominator `Δ³` (`p = kc²`, what the Biot–Savart integral produces) -/
+theorem cel_one_eq_cube {kc : ℝ} (hkc : kc ≠ 0) (a b : ℝ) :
+    celIntegral kc 1 a b = celIntegral kc (kc ^ 2) b (a * kc ^ 2) :=
+  celIntegral_one_eq_cube hkc a b
+
+/-- **C01 (Circle), item 3**: by φ = π − 2θ, the symmetry φ ↦ 2π − φ and the integration by parts
+above, each loop integral is a prefactor times `cel(q, 1, a, b)` with exactly the parameters of the
+corresponding `cel_iter` call of `current_circle_Hfield` -/
+theorem circle_integrals_as_cel {r0 r z : ℝ} (hr0 : 0 < r0) (hr : 0 < r) (hwire : ¬ (z = 0 ∧ r = r0)) :
+    (∫ φ in (0:ℝ)..(2 * π),
+        r0 * z * Real.cos φ / Real.sqrt (r0 * r0 + r * r + z * z - 2 * r0 * r * Real.cos φ) ^ 3) =
+      4 / (((r + r0) * (r + r0) + z * z) * Real.sqrt ((r + r0) * (r + r0) + z * z)) *
+        (r0 * z / (circleK2 r0 r z * circleQ2 r0 r z)) *
+        celIntegral (circleQ r0 r z) 1 (circleK2 r0 r z) (-(circleK2 r0 r z * circleQ2 r0 r z)) ∧
+    (∫ φ in (0:ℝ)..(2 * π),
+        r0 * (r0 - r * Real.cos φ) / Real.sqrt (r0 * r0 + r * r + z * z - 2 * r0 * r * Real.cos φ) ^ 3) =
+      4 / (((r + r0) * (r + r0) + z * z) * Real.sqrt ((r + r0) * (r + r0) + z * z)) *
+        (-(r0 * r) / (circleK2 r0 r z * circleQ2 r0 r z)) *
+        celIntegral (circleQ r0 r z) 1 (circleK2 r0 r z * (1 - 1 / (r / r0)))
+          (-(circleK2 r0 r z * circleQ2 r0 r z * (1 + 1 / (r / r0)))) :=
+  CircleBS.circle_integrals_as_cel hr0 hr hwire
+
+/-- the kernel's `q2`, `k2` in unnormalised coordinates; `k2 + q2 = 1` -/
+theorem circle_q2_k2 {r0 r z : ℝ} (hr0 : 0 < r0) (hr : 0 < r) :
+    circleQ2 r0 r z = ((r - r0) * (r - r0) + z * z) / ((r + r0) * (r + r0) + z * z) ∧
+    circleK2 r0 r z = 4 * r * r0 / ((r + r0) * (r + r0) + z * z) ∧
+    circleK2 r0 r z + circleQ2 r0 r z = 1 :=
+  ⟨circleQ2_eq hr0 hr, circleK2_eq hr0 hr, circleK2_add_circleQ2 hr0 hr⟩
+
+/-- the state `celEntry kc p a b` is where the model's `cel0` (port of the source's `cel0`, prologue
+included) enters its loop; and the loop variables with which `current_circle_Hfield` calls `cel_iter`
+are `celEntry q 1 a b` for the two parameter pairs above -/
+theorem cel_prologue_state (fuel : ℕ) {kc p : ℝ} (hkc : kc ≠ 0) (hp : 0 < p) (a b : ℝ) :
+    cel0 fuel kc p a b =
+      cel0Loop fuel (celEntry kc p a b).qc (celEntry kc p a b).kk (celEntry kc p a b).cc
+        (celEntry kc p a b).ss (celEntry kc p a b).p (celEntry kc p a b).g (celEntry kc p a b).em :=
+  cel0_enters_at_celEntry fuel hkc hp a b
+
+theorem circle_calls_are_cel_prologue_states {r0 r z : ℝ} (hr0 : 0 < r0) (hr : 0 < r)
+    (hwire : ¬ (z = 0 ∧ r = r0)) :
+    circleEntry1 r0 r z = celEntry (circleQ r0 r z) 1 (circleA1 r0 r z) (circleB1 r0 r z) ∧
+    circleEntry2 r0 r z = celEntry (circleQ r0 r z) 1 (circleA2 r0 r z) (circleB2 r0 r z) :=
+  ⟨circleEntry1_eq hr0 hr hwire, circleEntry2_eq hr0 hr hwire⟩
+
+/-- the literal `795774.7154594767` of the source stands for `1e7/(4π)`: κ = literal·4π·1e-7 is 1 to
+better than 1e-16 (it is not exactly 1: the statements below carry κ explicitly) -/
+theorem circle_literal_close : |kappa - 1| < 1 / 10 ^ 16 := kappa_close
+
+/-- **C01 (Circle off the axis), exact and free of any hypothesis about `cel`**: loop radius `r0 > 0`,
+observer at cylinder coordinates `(r, z)`, `r > 0`, not on the wire, fuel ≥ `circleFuel r0 r z`
+(the bound of `circle_cel_terminates`).  Both cel iterations return values `c₁`, `c₂`, and the port of
+`current_circle_Hfield` returns
+  H_r = κ·(I/(4π) ∮ (dl × d)_r / |d|³) + (pf·z/r·795774.7154594767)·(c₁ − cel(q, 1, a₁, b₁)),
+  H_z = κ·(I/(4π) ∮ (dl × d)_z / |d|³) − (pf·795774.7154594767)·(c₂ − cel(q, 1, a₂, b₂)).
+This pins `pf = k/√r/q2/20/r0·1e-6·i0`, the literal, both `(cc, ss)` pairs and the factor `z/r` to
+the physics: with any of them changed the first summand would no longer be the Biot–Savart integral. -/
+theorem circle_kernel_is_biot_savart_plus_cel_error {r0 r z : ℝ} (i0 : ℝ) (hr0 : 0 < r0) (hr : 0 < r)
+    (hwire : ¬ (z = 0 ∧ r = r0)) (fuel : ℕ) (hfuel : circleFuel r0 r z ≤ fuel) :
+    ∃ c1 c2 : ℝ,
+      celIterRow fuel (celEntry (circleQ r0 r z) 1 (circleA1 r0 r z) (circleB1 r0 r z)) = some c1 ∧
+      celIterRow fuel (celEntry (circleQ r0 r z) 1 (circleA2 r0 r z) (circleB2 r0 r z)) = some c2 ∧
+      circleHcyl fuel r0 r z i0 = some
+        (kappa * circleBSr r0 r z i0 + circlePr r0 r z i0 *
+            (c1 - celIntegral (circleQ r0 r z) 1 (circleA1 r0 r z) (circleB1 r0 r z)),
+         kappa * circleBSz r0 r z i0 + circlePz r0 r z i0 *
+            (c2 - celIntegral (circleQ r0 r z) 1 (circleA2 r0 r z) (circleB2 r0 r z))) :=
+  circleHcyl_eq_bs_add_cel_error i0 hr0 hr hwire fuel hfuel
+
+/-- error propagation: if the two values returned by the cel iterations are within `δ₁`, `δ₂` of the
+cel integrals, the kernel is within `|pf·z/r·literal|·δ₁`, `|pf·literal|·δ₂` of κ·Biot–Savart -/
+theorem circle_is_biot_savart_within {r0 r z : ℝ} (i0 : ℝ) (hr0 : 0 < r0) (hr : 0 < r)
+    (hwire : ¬ (z = 0 ∧ r = r0)) (fuel : ℕ) (hfuel : circleFuel r0 r z ≤ fuel) (δ1 δ2 : ℝ)
+    (h1 : ∀ c, celIterRow fuel (celEntry (circleQ r0 r z) 1 (circleA1 r0 r z) (circleB1 r0 r z)) = some c →
+      |c - celIntegral (circleQ r0 r z) 1 (circleA1 r0 r z) (circleB1 r0 r z)| ≤ δ1)
+    (h2 : ∀ c, celIterRow fuel (celEntry (circleQ r0 r z) 1 (circleA2 r0 r z) (circleB2 r0 r z)) = some c →
+      |c - celIntegral (circleQ r0 r z) 1 (circleA2 r0 r z) (circleB2 r0 r z)| ≤ δ2) :
+    ∃ Hr Hz : ℝ, circleHcyl fuel r0 r z i0 = some (Hr, Hz) ∧
+      |Hr - kappa * circleBSr r0 r z i0| ≤ |circlePr r0 r z i0| * δ1 ∧
+      |Hz - kappa * circleBSz r0 r z i0| ≤ |circlePz r0 r z i0| * δ2 := by
+  obtain ⟨c1, c2, e1, e2, hv⟩ := circleHcyl_eq_bs_add_cel_error i0 hr0 hr hwire fuel hfuel
+  refine ⟨_, _, hv, ?_, ?_⟩
+  · rw [add_sub_cancel_left, abs_mul]
+    exact mul_le_mul_of_nonneg_left (h1 c1 e1) (abs_nonneg _)
+  · rw [add_sub_cancel_left, abs_mul]
+    exact mul_le_mul_of_nonneg_left (h2 c2 e2) (abs_nonneg _)
+
+/-- **C01 (Circle off the axis) modulo the named fact**: assume `CelComputesIntegral` (Bulirsch's
+iteration, started in the prologue state of `cel(kc, 1, a, b)`, `kc > 0`, converges to
+`celIntegral kc 1 a b`; a `Prop`, not an axiom).  Then
+(1) the model's value is `circleHAt m₁ m₂` — the source's closed form with the two loops stopped after
+    `m₁`, `m₂` passes — for the pass counts at which the `while` tests first fail, and
+(2) `circleHAt m m → (κ·H_r, κ·H_z)` as `m → ∞`, with `H_r`, `H_z` the Biot–Savart integrals
+    `I/(4π) ∮ (dl × d)_{r,z} / |d|³` of the loop.
+/- FULL (as first asked for): `CelComputesIntegral → circleHcyl fuel r0 r z i0 = some (H_r, H_z)`.
+   Not true as an equality in exact arithmetic, for two reasons that are made explicit instead:
+   the loop exits at relative gap < 1e-8 (truncation error of the returned value ≈ gap², see
+   `circle_kernel_is_biot_savart_plus_cel_error` / `circle_is_biot_savart_within` for the exact
+   dependence), and the decimal literal gives κ ≠ 1 (`circle_literal_close`). -/ -/
+theorem circle_is_biot_savart_of_cel (hcel : CelComputesIntegral) {r0 r z : ℝ} (i0 : ℝ)
+    (hr0 : 0 < r0) (hr : 0 < r) (hwire : ¬ (z = 0 ∧ r = r0)) :
+    (∀ fuel, circleFuel r0 r z ≤ fuel → ∃ m1 m2 : ℕ, m1 < fuel ∧ m2 < fuel ∧
+      celRowCont (celRowStep^[m1]
+        (celEntry (circleQ r0 r z) 1 (circleA1 r0 r z) (circleB1 r0 r z))) = false ∧
+      celRowCont (celRowStep^[m2]
+        (celEntry (circleQ r0 r z) 1 (circleA2 r0 r z) (circleB2 r0 r z))) = false ∧
+      circleHcyl fuel r0 r z i0 = some (circleHAt m1 m2 r0 r z i0)) ∧
+    Filter.Tendsto (fun m => circleHAt m m r0 r z i0) Filter.atTop
+      (nhds (kappa * circleBSr r0 r z i0, kappa * circleBSz r0 r z i0)) :=
+  ⟨fun fuel hf => circleHcyl_eq_circleHAt i0 hr0 hr hwire fuel hf,
+   circleHAt_tendsto hcel i0 hr0 hr hwire⟩
+
+/-- the named fact holds (provably) in the degenerate case `kc = 1`, where the integrand is
+elementary: the hypothesis is stated about the right entry state, return expression and integral -/
+theorem cel_converges_at_one (a b : ℝ) : CelConverges 1 1 a b := celConverges_one_one a b
+
+-- non-vacuity: loop of radius 1, observer at (r, z) = (2, 1/2) and in the loop's plane outside the wire
+example : ∃ c1 c2 : ℝ,
+    celIterRow (circleFuel 1 2 (1/2)) (celEntry (circleQ 1 2 (1/2)) 1 (circleA1 1 2 (1/2)) (circleB1 1 2 (1/2))) = some c1 ∧
+    celIterRow (circleFuel 1 2 (1/2)) (celEntry (circleQ 1 2 (1/2)) 1 (circleA2 1 2 (1/2)) (circleB2 1 2 (1/2))) = some c2 ∧
+    circleHcyl (circleFuel 1 2 (1/2)) 1 2 (1/2) 3 = some
+      (kappa * circleBSr 1 2 (1/2) 3 + circlePr 1 2 (1/2) 3 *
+          (c1 - celIntegral (circleQ 1 2 (1/2)) 1 (circleA1 1 2 (1/2)) (circleB1 1 2 (1/2))),
+       kappa * circleBSz 1 2 (1/2) 3 + circlePz 1 2 (1/2) 3 *
+          (c2 - celIntegral (circleQ 1 2 (1/2)) 1 (circleA2 1 2 (1/2)) (circleB2 1 2 (1/2)))) :=
+  circle_kernel_is_biot_savart_plus_cel_error 3 one_pos two_pos (by norm_num) _ le_rfl
+example : (0:ℝ) < 1 ∧ (0:ℝ) < 2 ∧ ¬ ((0:ℝ) = 0 ∧ (2:ℝ) = 1) := by norm_num
+-- the parameters are the ones computed by hand for r0 = 1, r = 2, z = 0: q2 = 1/9, k2 = 8/9
+example : circleQ2 1 2 0 = 1 / 9 ∧ circleK2 1 2 0 = 8 / 9 := by
+  obtain ⟨h1, h2, -⟩ := circle_q2_k2 (r0 := 1) (r := 2) (z := 0) one_pos two_pos
+  rw [h1, h2]; norm_num
+
+/-- the general-observer integrand restricted to the axis is the integrand of
+`circle_on_axis_is_biot_savart` -/
+theorem loopIntegrandAt_axis (r0 z φ : ℝ) : loopIntegrandAt r0 ⟨0, 0, z⟩ φ = loopIntegrandAxis r0 z φ := rfl
+
+/-- the loop integral at azimuth `ψ`: `∮ dl × d / |d|³ = (I_r cos ψ, I_r sin ψ, I_z)` with the
+azimuth-0 integrals `I_r`, `I_z` of `circle_loop_integrals` (rotation about the axis + periodicity) -/
+theorem circle_loop_integral_any_azimuth {r0 r z : ℝ} (hr0 : 0 < r0) (hr : 0 < r)
+    (hwire : ¬ (z = 0 ∧ r = r0)) (ψ : ℝ) :
+    (∫ φ in (0:ℝ)..(2 * π), (loopIntegrandAt r0 ⟨r * Real.cos ψ, r * Real.sin ψ, z⟩ φ).x) =
+        (∫ φ in (0:ℝ)..(2 * π), (loopIntegrand r0 r z φ).x) * Real.cos ψ ∧
+    (∫ φ in (0:ℝ)..(2 * π), (loopIntegrandAt r0 ⟨r * Real.cos ψ, r * Real.sin ψ, z⟩ φ).y) =
+        (∫ φ in (0:ℝ)..(2 * π), (loopIntegrand r0 r z φ).x) * Real.sin ψ ∧
+    (∫ φ in (0:ℝ)..(2 * π), (loopIntegrandAt r0 ⟨r * Real.cos ψ, r * Real.sin ψ, z⟩ φ).z) =
+        ∫ φ in (0:ℝ)..(2 * π), (loopIntegrand r0 r z φ).z :=
+  loopIntegralAt_eq hr0 hr hwire ψ
+
+/-- **C01 (Circle wrapper, field H, any observer of the general branch), exact and hypothesis-free**:
+diameter `d ≠ 0`, observer `(x, y, z)` off the axis and outside the wrapper's on-the-wire mask
+(`mask2`), fuel ≥ `circleFuelX`.  `BHJM_circle` — masks, `cart_to_cyl_coordinates`,
+`current_circle_Hfield`, `cyl_field_to_cart` — returns
+  κ · I/(4π) ∮ dl × d / |d|³   (Cartesian vector Biot–Savart integral over the loop)
+plus the two cel-iteration errors `c_i − cel(q, 1, a_i, b_i)` times the source's prefactors, turned
+to the observer's azimuth.  Together with `circle_on_axis_is_biot_savart` this covers every observer
+for which the wrapper does not return its special-case zero. -/
+theorem circle_wrapper_is_biot_savart_plus_cel_error (fuel : ℕ) (d cur x y z : ℝ) (hd : d ≠ 0)
+    (hxy : ¬ (x = 0 ∧ y = 0))
+    (h2 : ¬ (|Real.sqrt (x * x + y * y) - (|d / 2|)| < 1 / 1000000000000000 * |d / 2| ∧
+      |z| < 1 / 1000000000000000 * |d / 2|))
+    (hfuel : circleFuelX d ⟨x, y, z⟩ ≤ fuel) :
+    ∃ c1 c2 : ℝ,
+      celIterRow fuel (celEntry (circleQ |d / 2| (Real.sqrt (x * x + y * y)) z) 1
+        (circleA1 |d / 2| (Real.sqrt (x * x + y * y)) z) (circleB1 |d / 2| (Real.sqrt (x * x + y * y)) z)) = some c1 ∧
+      celIterRow fuel (celEntry (circleQ |d / 2| (Real.sqrt (x * x + y * y)) z) 1
+        (circleA2 |d / 2| (Real.sqrt (x * x + y * y)) z) (circleB2 |d / 2| (Real.sqrt (x * x + y * y)) z)) = some c2 ∧
+      bhjmCircle fuel .H d cur ⟨x, y, z⟩ = some
+        (vs kappa (vs (cur / (4 * π))
+          ⟨∫ φ in (0:ℝ)..(2 * π), (loopIntegrandAt |d / 2| ⟨x, y, z⟩ φ).x,
+           ∫ φ in (0:ℝ)..(2 * π), (loopIntegrandAt |d / 2| ⟨x, y, z⟩ φ).y,
+           ∫ φ in (0:ℝ)..(2 * π), (loopIntegrandAt |d / 2| ⟨x, y, z⟩ φ).z⟩) +
+         ⟨circlePr |d / 2| (Real.sqrt (x * x + y * y)) z cur *
+              (c1 - celIntegral (circleQ |d / 2| (Real.sqrt (x * x + y * y)) z) 1
+                (circleA1 |d / 2| (Real.sqrt (x * x + y * y)) z) (circleB1 |d / 2| (Real.sqrt (x * x + y * y)) z)) *
+              Real.cos (Complex.arg ⟨x, y⟩),
+          circlePr |d / 2| (Real.sqrt (x * x + y * y)) z cur *
+              (c1 - celIntegral (circleQ |d / 2| (Real.sqrt (x * x + y * y)) z) 1
+                (circleA1 |d / 2| (Real.sqrt (x * x + y * y)) z) (circleB1 |d / 2| (Real.sqrt (x * x + y * y)) z)) *
+              Real.sin (Complex.arg ⟨x, y⟩),
+          circlePz |d / 2| (Real.sqrt (x * x + y * y)) z cur *
+              (c2 - celIntegral (circleQ |d / 2| (Real.sqrt (x * x + y * y)) z) 1
+                (circleA2 |d / 2| (Real.sqrt (x * x + y * y)) z) (circleB2 |d / 2| (Real.sqrt (x * x + y * y)) z))⟩) :=
+  bhjmCircle_eq_bs_add_cel_error fuel d cur x y z hd hxy h2 hfuel
+
+-- non-vacuity: diameter 2, observer (3, 4, 1) (r = 5): general branch of the wrapper
+example : (2:ℝ) ≠ 0 ∧ ¬ ((3:ℝ) = 0 ∧ (4:ℝ) = 0) ∧
+    ¬ (|Real.sqrt ((3:ℝ) * 3 + 4 * 4) - (|(2:ℝ) / 2|)| < 1 / 1000000000000000 * |(2:ℝ) / 2| ∧
+      |(1:ℝ)| < 1 / 1000000000000000 * |(2:ℝ) / 2|) := by
+  refine ⟨by norm_num, by norm_num, ?_⟩
+  intro h
+  have := h.2
+  norm_num at this
 
 end MagpyVerif.C01
